@@ -548,6 +548,22 @@ impl RepositoryState {
 }
 
 
+#[cfg(feature = "verif-hooks")]
+impl RepositoryState {
+    /// Reads the state from an IO reader.
+    pub fn verif_parse(reader: &mut impl io::Read) -> Result<Self, io::Error> {
+        Self::parse(reader)
+    }
+
+    /// Composes the encoded state.
+    pub fn verif_compose(
+        &self, writer: &mut impl io::Write
+    ) -> Result<(), io::Error> {
+        self.compose(writer)
+    }
+}
+
+
 //------------ FallbackTime --------------------------------------------------
 
 /// Parameters for calculating the best-before time of repositories.
